@@ -7,8 +7,11 @@ let vsig (s : Model.sigdata) =
 
 let () =
   (* ecdsa_sign keyref [signers] [kis] [gammas] m fullLen kdd | [ks] [xs] [Y]   (the first 7 args are for the implementation) *)
-  reg "ecdsa_sign" (fun a -> match a with [_; _; kis; _; m; fl; _; ks; xs; y] ->
-    vout vsig (Model.ecdsa_sign Model.secp256k1 (as_ints ks) (as_ints xs) (as_ints kis) (as_int m) (as_int fl) (as_pt y))
+  reg "ecdsa_sign" (fun a -> match a with [kref; _; kis; _; m; fl; _; ks; xs; y] ->
+    (* a key reference of the form p256:... names a key on that curve *)
+    let kr = as_atom kref in
+    let c = if String.length kr > 5 && String.sub kr 0 5 = "p256:" then Model.p256 else Model.secp256k1 in
+    vout vsig (Model.ecdsa_sign c (as_ints ks) (as_ints xs) (as_ints kis) (as_int m) (as_int fl) (as_pt y))
     | _ -> arity ());
   reg "eddsa_sign" (fun a -> match a with [_; _; ris; m; fl; ks; xs; y] ->
     vout vsig (Model.eddsa_sign h_sha512 Model.ed25519 (as_ints ks) (as_ints xs) (as_ints ris) (as_int m) (as_int fl) (as_pt y))
